@@ -3,12 +3,14 @@ UNITS = [
     # the harness #includes asmjit/core/jitallocator.cpp (file-local classes); VirtMem and pthread_mutex_* are stubbed in jit_env.h
     Unit('block1', harness=['h_block1.cpp'], repo_units=[], extra_c=['cbmc_mem.c']),
     Unit('world2', harness=['h_world2.cpp'], repo_units=[], extra_c=['cbmc_mem.c'], defines=['JENV_POOLS=3', 'JENV_NEW_BLOCK_WORDS=8']),
+    Unit('fill', harness=['h_fill.cpp'], repo_units=[], extra_c=['cbmc_mem.c'], defines=['JENV_ARENA_BYTES=4096']),
     Unit('bits', harness=['h_bits.cpp'], repo_units=[], extra_c=['cbmc_mem.c']),
     Unit('gen', harness=['h_gen.cpp'], repo_units=[], extra_c=['cbmc_mem.c']),
 ]
 B1 = '1 block of 64 granules in any state satisfying I(block), any window/flags; '
 B2 = '1 block of 128 granules (two bit words) in any state satisfying I(block); '
 MEM = 'memset.0:10,memset.1:9,memcpy.0:10,memcpy.1:9'
+FILL = MEM + ',_ZN6asmjit5v1_21L25JitAllocator_fill_patternEPvjm.0:50,_ZN6asmjit5v1_21L25JitAllocator_fill_patternEPvjm.1:50,_ZN6asmjit5v1_21L25JitAllocator_fill_patternEPvjm.2:50'
 HARNESSES = [
     Harness('block1', 'h_alloc_w1', unwind=4, bounds=B1 + 'every size; at most 2 free runs', unwindset=MEM, mem_gb=6, timeout=900),
     Harness('block1', 'h_alloc_w2', unwind=4, bounds=B2 + 'every size; at most 2 free runs', unwindset=MEM, mem_gb=8, timeout=1800, tiers=('thorough',)),
@@ -37,6 +39,11 @@ HARNESSES = [
     Harness('world2', 'h_second_block', unwind=10, unwindset=MEM, bounds='pool with one full block of 64 granules, 4 boundary sizes', mem_gb=6),
     Harness('world2', 'h_release_2b', unwind=6, unwindset=MEM, bounds='2 blocks of 64 granules in any states of I, any list order / tree shape / cursor', mem_gb=6),
     Harness('world2', 'h_release_2b_imm', unwind=6, unwindset=MEM, bounds='same, immediate release', mem_gb=6),
+    Harness('fill', 'h_fill_release', unwind=6, unwindset=FILL, bounds='1 block of 64 granules, any state of I around a span of 1..2 granules at granule P/31/61/62, any pattern, any byte of the mapping', mem_gb=6),
+    Harness('fill', 'h_fill_release_dual', unwind=6, unwindset=FILL, bounds='same, dual mapping', mem_gb=6, tiers=('thorough',)),
+    Harness('fill', 'h_fill_shrink', unwind=6, unwindset=FILL, bounds='same, shrink keeping 1..2 granules and freeing 0..2', mem_gb=6),
+    Harness('fill', 'h_write', unwind=6, unwindset=MEM.replace('memcpy.0:10', 'memcpy.0:18'), bounds='span of 1..2 granules, 8 boundary offsets, any size, any source byte', mem_gb=6),
+    Harness('fill', 'h_write_fn', unwind=6, unwindset=FILL, bounds='span of 1..3 granules truncated to 1..256 bytes by the write function', mem_gb=6),
     Harness('bits', 'h_bv_fill_clear', unwind=5, unwindset=MEM, bounds='3 words, every index/count', mem_gb=4),
     Harness('bits', 'h_bv_bit', unwind=5, unwindset=MEM, bounds='3 words, every index', mem_gb=4),
     Harness('bits', 'h_bv_index_of', unwind=5, unwindset=MEM, bounds='3 words, every start', mem_gb=4),
